@@ -295,6 +295,11 @@ class QGen:
             inner = self.logical(samples, depth, ldepth + 1)
             neg = self.rng.choice(["!", "not "])
             return f"{neg}({inner})" if (" " in inner or self.rng.random() < 0.3) else f"{neg}{inner}"
+        if self.opts.get("p_regex_fn") and self.rng.random() < self.opts["p_regex_fn"]:
+            # regex-heavy profile: many match()/search() calls with different patterns on one environment
+            fn = self.rng.choice(["match", "search"])
+            arg = "@" if self.rng.random() < 0.6 else self.singular(samples)
+            return f"{fn}({arg}, {self.quote(self.rng.choice(REGEXES))})"
         if self.opts.get("p_trip") and self.rng.random() < self.opts["p_trip"]:
             # the simulator's fault seam inside filter evaluation (jpsim/tripwire.py)
             return f"tripwire({self.singular(samples)})"
@@ -342,6 +347,14 @@ class QGen:
 
     # ------------------------------------------------------------- whole queries
     def simple(self) -> str:
+        if self.opts.get("p_flat") and self.rng.random() < self.opts["p_flat"]:
+            # a filter applied right at the root (or to every descendant): it certainly gets evaluated
+            lead = self.rng.choice(["$", "$", "$.."])
+            kids = self.children_of(self.doc)
+            if lead == "$..":
+                kids = [v for _, v in self.locs[1:]] or kids
+            tail = self.rng.choice(["", "", ".*", "[0]"])
+            return f"{lead}[?{self.logical(kids, 1, 0)}]{tail}"
         if self.opts["p_ext"] > 0 and self.rng.random() < 0.06:
             # fake root: the first segment applies to [document]
             first = self.rng.choice(["[0]", "[*]", "[?" + self.logical([self.doc], 1, 0) + "]", "..*"])
